@@ -117,6 +117,10 @@ pub enum Op {
     /// `std::sync::Arc` (from_pointee, empty, Default, From, Debug/Display, ArcSwapAny::map,
     /// Cache::from / arc_swap), on containers private to this thread but on this thread's node.
     StdArc { variant: u8 },
+    /// The destructor of whatever container `c` stores right now will itself use the crate when
+    /// it runs (wherever the last count goes): `store` a fresh value into container `into`
+    /// (`load == false`) or load-and-drop from it (`load == true`).
+    ArmDropOp { c: u8, into: u8, load: bool },
     Spawn { t: u8 },
     Join { t: u8 },
     /// Register a thread-local whose destructor performs `ops` at thread exit.
